@@ -31,6 +31,7 @@ EXTENDS Naturals, Sequences, FiniteSets, TLC, Json
 CONSTANTS Ids,            \* set of <<did, frag, query>>
           RelOrder,       \* sequence of relationship names, in scan order
           MaxInit,        \* initial documents have at most this many entries
+          MaxLoad,        \* documents offered to the deserialisation gate have at most this many entries
           GuardDangling,  \* BOOLEAN, see above
           SampleT,        \* emit every transition (1) or a random 1/SampleT of them
           SampleS         \* emit every state's resolution table (1) or a random 1/SampleS of them
@@ -217,6 +218,17 @@ SvcSeq(d) ==
       Ser(T) == IF T = {} THEN <<>> ELSE LET x == CHOOSE x \in T : TRUE
                                           IN <<[q |-> x, idx |-> ResolveService(d, x)]>> \o Ser(T \ {x})
   IN Ser(Queries)
+
+-----------------------------------------------------------------------------
+(* The deserialisation / builder gate: EVERY small document -- valid or not -- is offered to from_json and to the builder;
+   it must be accepted only if it is valid (two methods with one id, a reference aliasing an embedded method and a service
+   id equal to a method id are refused whatever DID the colliding id is under). *)
+LoadDocs == {d \in [vm : SeqsUpTo(Ids, MaxLoad), rel : [Rels -> SeqsUpTo(Entry, MaxLoad)], svc : SeqsUpTo(Ids, MaxLoad)] :
+               Size(d) <= MaxLoad}
+LoadInit == /\ doc \in LoadDocs
+            /\ last = [kind |-> "load", pre |-> doc, op |-> [name |-> "load"], res |-> [ok |-> Valid(doc)], post |-> doc]
+LoadSpec == LoadInit /\ [][UNCHANGED vars]_vars
+EmitLoad == PrintT(<<"CASE", ToJson([kind |-> "load", pre |-> doc, valid |-> Valid(doc)])>>)
 
 View == doc
 EmitT == RandomElement(1..SampleT) # 1 \/ PrintT(<<"CASE", ToJson(last')>>)
